@@ -169,6 +169,56 @@ func (s *c10seq) runBlocking(name string, n *node, f func()) bool {
 	return true
 }
 
+// drainRelease: Release of the last strong reference while a gated call is
+// in flight on node f (the Release runs in its own goroutine and blocks on
+// the call), then - once the Release has provably dropped the reference
+// (IsValid() == false is set in the same critical section) - a weak upgrade,
+// which must be refused: the capability has no strong reference left, it is
+// only waiting for the call to drain before it shuts down.  Then the gate
+// is opened and everything is joined.
+func (s *c10seq) drainRelease(h *mhandle, f *node) bool {
+	cc := s.cc
+	var wk *capnp.WeakClient
+	if !cc.run("WeakRef", func() { wk = h.c.WeakRef() }) {
+		return false
+	}
+	op := cc.goOp("Release(last ref, call in flight)", func() { h.c.Release() })
+	dropped := false
+	for i := 0; i < 5000 && !op.isDone() && !dropped; i++ {
+		valid := true
+		if !cc.run("IsValid", func() { valid = h.c.IsValid() }) {
+			return false
+		}
+		dropped = !valid
+		if !dropped {
+			runtime.Gosched()
+		}
+	}
+	if dropped && !op.isDone() && wk != nil {
+		s.counts["weak_upgrade_during_draining_call"]++
+		s.logOp("weak upgrade while the last Release waits for the call")
+		var c *capnp.Client
+		var okk bool
+		if !cc.run("WeakClient.AddRef", func() { c, okk = wk.AddRef() }) {
+			return false
+		}
+		if c != nil || okk {
+			cc.violate("C10/weak-upgrade-of-dead-hook/call-draining",
+				"WeakClient.AddRef succeeded after the last strong reference had been released (the Release is only waiting for a call in progress)",
+				fmt.Sprintf("hook=%d", f.id))
+			return true
+		}
+	}
+	if !s.openNode(f) {
+		return false
+	}
+	if !cc.join(op) {
+		return false
+	}
+	f.shut = true
+	return true
+}
+
 func (s *c10seq) doCall(hi int, recv bool) bool {
 	h := s.handles[hi]
 	s.nextUID++
@@ -361,7 +411,7 @@ func runC10Seq(rec *common.Recorder, idx uint64, seed uint64) bool {
 			}
 			if blocks {
 				s.counts["release_blocking"]++
-				if !s.runBlocking("Release(last ref, call in flight)", f, func() { h.c.Release() }) {
+				if !s.drainRelease(h, f) {
 					return false
 				}
 			} else {
@@ -424,6 +474,34 @@ func runC10Seq(rec *common.Recorder, idx uint64, seed uint64) bool {
 					s.handles = append(s.handles, &mhandle{c: c, n: f})
 				}
 			}
+		case r < 58: // set up "last Release during a gated call, then weak upgrade"
+			var cand []int
+			for _, i := range lv {
+				if f := final(s.handles[i].n); f != nil && f.refs == 1 && !s.hooks[f.id].gate.isArmed() {
+					cand = append(cand, i)
+				}
+			}
+			if len(cand) == 0 || len(s.flying) >= 4 {
+				return true
+			}
+			hi := cand[rng.Intn(len(cand))]
+			h := s.handles[hi]
+			f := final(h.n)
+			s.hooks[f.id].gate.arm()
+			s.logOp("arm hook %d", f.id)
+			if !s.doCall(hi, rng.Chance(1, 3)) {
+				return false
+			}
+			if cc.numViol() > 0 || f.calls == 0 {
+				return true
+			}
+			h.released = true
+			s.logOp("release h%d (last ref, call in flight)", hi)
+			s.counts["op_release"]++
+			s.counts["release_last"]++
+			s.counts["release_blocking"]++
+			f.refs--
+			return s.drainRelease(h, f)
 		case r < 70: // call
 			if len(all) == 0 {
 				return true
